@@ -20,7 +20,12 @@ from ref import codec
 
 FN_FC = {'read_coils': 1, 'read_discrete_inputs': 2, 'read_holding_registers': 3, 'read_input_registers': 4,
          'write_coil': 5, 'write_register': 6, 'write_coils': 15, 'write_registers': 16,
-         'mask_write_register': 22, 'readwrite_registers': 23, 'diag_query_data': 8, 'read_exception_status': 7}
+         'mask_write_register': 22, 'readwrite_registers': 23, 'diag_query_data': 8, 'read_exception_status': 7,
+         # extended set (requests without a mixin method; issued through client.execute)
+         'diag': 8, 'get_comm_event_counter': 11, 'get_comm_event_log': 12, 'report_slave_id': 17,
+         'read_file_record': 20, 'write_file_record': 21, 'read_fifo_queue': 24, 'read_device_information': 43}
+# requests that carry no field at all: at most one of each per scenario (the peer tells requests apart by content)
+FIELDLESS = ('read_exception_status', 'get_comm_event_counter', 'get_comm_event_log', 'report_slave_id')
 
 
 def request_pdu(op):
@@ -45,6 +50,73 @@ def request_pdu(op):
         return bytes([8, 0, 0]) + bytes.fromhex(a['data'])
     if fn == 'read_exception_status':
         return bytes([7])
+    if fn == 'diag':
+        return struct.pack('>BHH', 8, a['sub'], a['data'])
+    if fn in ('get_comm_event_counter', 'get_comm_event_log', 'report_slave_id'):
+        return bytes([FN_FC[fn]])
+    if fn == 'read_fifo_queue':
+        return struct.pack('>BH', 24, a['address'])
+    if fn == 'read_file_record':
+        body = b''.join(struct.pack('>BHHH', 6, f, r, n) for (f, r, n) in a['records'])
+        return bytes([20, len(body)]) + body
+    if fn == 'write_file_record':
+        body = b''.join(struct.pack('>BHHH', 6, f, r, len(bytes.fromhex(d)) // 2) + bytes.fromhex(d)
+                        for (f, r, d) in a['records'])
+        return bytes([21, len(body)]) + body
+    if fn == 'read_device_information':
+        return bytes([43, 14, a['read_code'], a['object_id']])
+    raise ValueError(fn)
+
+
+EXTENDED = ('diag', 'get_comm_event_counter', 'get_comm_event_log', 'report_slave_id', 'read_file_record',
+            'write_file_record', 'read_fifo_queue', 'read_device_information')
+
+
+def diag_class(sub):
+    """The library's request class for a diagnostic sub-function code (as its factory would look it up)."""
+    import pymodbus.diag_message as dm
+    for n in dm.__all__:
+        c = getattr(dm, n)
+        if n.endswith('Request') and getattr(c, 'sub_function_code', None) == sub and n != 'DiagnosticStatusRequest':
+            return c
+    raise ValueError(sub)
+
+
+def build_extended(op):
+    """The request object a user would hand to client.execute() for an op of the extended set."""
+    a = op['args']
+    fn = op['fn']
+    unit = op.get('unit', 1)
+    if fn == 'diag':
+        cls = diag_class(a['sub'])
+        if a['sub'] == 0:
+            return cls(a['data'], unit=unit)
+        if a['sub'] == 1:
+            return cls(toggle=(a['data'] == 0xFF00), unit=unit)
+        return cls(data=a['data'], unit=unit)
+    if fn == 'get_comm_event_counter':
+        from pymodbus.other_message import GetCommEventCounterRequest
+        return GetCommEventCounterRequest(unit=unit)
+    if fn == 'get_comm_event_log':
+        from pymodbus.other_message import GetCommEventLogRequest
+        return GetCommEventLogRequest(unit=unit)
+    if fn == 'report_slave_id':
+        from pymodbus.other_message import ReportSlaveIdRequest
+        return ReportSlaveIdRequest(unit=unit)
+    if fn == 'read_fifo_queue':
+        from pymodbus.file_message import ReadFifoQueueRequest
+        return ReadFifoQueueRequest(a['address'], unit=unit)
+    if fn == 'read_file_record':
+        from pymodbus.file_message import ReadFileRecordRequest, FileRecord
+        return ReadFileRecordRequest([FileRecord(file_number=f, record_number=r, record_length=n)
+                                      for (f, r, n) in a['records']], unit=unit)
+    if fn == 'write_file_record':
+        from pymodbus.file_message import WriteFileRecordRequest, FileRecord
+        return WriteFileRecordRequest([FileRecord(file_number=f, record_number=r, record_data=bytes.fromhex(d))
+                                       for (f, r, d) in a['records']], unit=unit)
+    if fn == 'read_device_information':
+        from pymodbus.mei_message import ReadDeviceInformationRequest
+        return ReadDeviceInformationRequest(read_code=a['read_code'], object_id=a['object_id'], unit=unit)
     raise ValueError(fn)
 
 
@@ -77,6 +149,8 @@ def call_op(client, op):
     if fn == 'read_exception_status':
         from pymodbus.other_message import ReadExceptionStatusRequest
         return client.execute(ReadExceptionStatusRequest(unit=unit))
+    if fn in EXTENDED:
+        return client.execute(build_extended(op))
     if fn in ('read_coils', 'read_discrete_inputs', 'read_holding_registers', 'read_input_registers'):
         return getattr(client, fn)(a['address'], a['count'], unit=unit)
     if fn in ('write_coil', 'write_register'):
